@@ -323,5 +323,43 @@ class FuzzStrings(Suite):
         return Info(nontrivial_string(s), labels_string(s))
 
 
-SUITES = [EnumShort(), RandomLong(), Authority(), QuotedString(), FuzzStrings()]
+# ---- sizes beyond the moderate range
+
+
+class Huge(Suite):
+    """Strings whose encoded / decoded form is 64 KiB - 1 MiB long (beyond any internal buffer or block size), built as
+    pad + unit * n + tail with multi-byte units so that, for some pad, a character's bytes straddle every power-of-two
+    offset; raw and already-escaped forms; plus values with 200-3000 escapes of which a LATE one is malformed.  Same
+    reference as everywhere else in this check (decode vs the reference decoder and urllib, encoders vs the reference
+    encoder, round trip, check-escaped idempotence)."""
+
+    name = 'huge'
+    exhaustive = True
+    budget = {'quick': 1, 'thorough': 1}
+
+    def cases(self, tier):
+        units = ['\u00e9', '\u20ac', '\U0001f600', 'a\u00e9\u20ac', '%C3%A9', '%F0%9F%98%80+', 'ab']
+        for unit in units:
+            for pad in (0, 1, 2, 3):
+                for nbytes in ((70000, 140000) if tier == 'quick' else (66000, 70000, 140000, 270000, 1100000)):
+                    yield {'pad': pad, 'unit': unit, 'nbytes': nbytes, 'tail': ''}
+        for n_ok in (200, 255, 256, 257, 511, 512, 1024, 3000):
+            for tail in ('%', '%4', '%zz', '/save-100%', '%41'):
+                yield {'pad': 1, 'unit': '%41', 'n': n_ok, 'tail': tail}
+
+    def run(self, case):
+        unit = case['unit']
+        n = case.get('n') or case['nbytes'] // len(unit.encode('utf-8')) + 1
+        s = 'x' * case['pad'] + unit * n + case['tail']
+        try:
+            check_string(s)
+        except Violation as v:
+            d = v.detail
+            raise Violation(v.kind, '%s ... %s\n  for s = %r*%d + %r*%d + %r' % (d[:300], d[-300:], 'x', case['pad'], unit, n, case['tail']))
+        return Info(True, ['unit:%s' % ascii(unit), 'len:%s' % ('>=64K' if len(s) >= 65536 else '<64K'),
+                           'late_malformed_escape' if _MALFORMED.search(case['tail']) else 'wellformed'])
+
+
+
+SUITES = [EnumShort(), RandomLong(), Authority(), QuotedString(), Huge(), FuzzStrings()]
 KNOWN = {}
